@@ -112,14 +112,20 @@ pub mod rc1 {
         fn _lead(&self, _ctx: ExecCtx, first: u32, second: u32) -> StdResult<Response> { Ok(Response::new()) }
         #[sv::msg(exec)]
         fn trail_(&self, _ctx: ExecCtx, first: u32, second: u32) -> StdResult<Response> { Ok(Response::new()) }
-        #[sv::msg(query)]
-        fn a__b(&self, _ctx: QueryCtx, first: u32, second: u32) -> StdResult<Resp> { Ok(Resp {}) }
+        #[sv::msg(exec)]
+        fn a__b(&self, _ctx: ExecCtx, first: u32, second: u32) -> StdResult<Response> { Ok(Response::new()) }
         #[sv::msg(query)]
         fn __x__y(&self, _ctx: QueryCtx, first: u32, second: u32) -> StdResult<Resp> { Ok(Resp {}) }
+        #[sv::msg(query)]
+        fn get_v2_info(&self, _ctx: QueryCtx, first: u32, second: u32) -> StdResult<Resp> { Ok(Resp {}) }
+        #[sv::msg(query)]
+        fn s3_key_7(&self, _ctx: QueryCtx, first: u32, second: u32) -> StdResult<Resp> { Ok(Resp {}) }
         #[sv::msg(sudo)]
-        fn get_v2_info(&self, _ctx: SudoCtx, first: u32, second: u32) -> StdResult<Response> { Ok(Response::new()) }
+        fn überweisen(&self, _ctx: SudoCtx, first: u32, second: u32) -> StdResult<Response> { Ok(Response::new()) }
         #[sv::msg(sudo)]
-        fn s3_key_7(&self, _ctx: SudoCtx, first: u32, second: u32) -> StdResult<Response> { Ok(Response::new()) }
+        fn konto_ändern(&self, _ctx: SudoCtx, first: u32, second: u32) -> StdResult<Response> { Ok(Response::new()) }
+        #[sv::msg(sudo)]
+        fn zurück_setzen(&self, _ctx: SudoCtx, first: u32, second: u32) -> StdResult<Response> { Ok(Response::new()) }
     }
 }
 
@@ -130,17 +136,23 @@ pub mod ri1 {
     pub trait Shapes1 {
         type Error: From<StdError>;
         #[sv::msg(exec)]
-        fn get_v2_info(&self, ctx: ExecCtx, first: u32, second: u32) -> Result<Response, Self::Error>;
+        fn überweisen(&self, ctx: ExecCtx, first: u32, second: u32) -> Result<Response, Self::Error>;
         #[sv::msg(exec)]
-        fn s3_key_7(&self, ctx: ExecCtx, first: u32, second: u32) -> Result<Response, Self::Error>;
+        fn konto_ändern(&self, ctx: ExecCtx, first: u32, second: u32) -> Result<Response, Self::Error>;
+        #[sv::msg(exec)]
+        fn zurück_setzen(&self, ctx: ExecCtx, first: u32, second: u32) -> Result<Response, Self::Error>;
         #[sv::msg(query)]
         fn _lead(&self, ctx: QueryCtx, first: u32, second: u32) -> Result<Resp, Self::Error>;
         #[sv::msg(query)]
         fn trail_(&self, ctx: QueryCtx, first: u32, second: u32) -> Result<Resp, Self::Error>;
-        #[sv::msg(sudo)]
-        fn a__b(&self, ctx: SudoCtx, first: u32, second: u32) -> Result<Response, Self::Error>;
+        #[sv::msg(query)]
+        fn a__b(&self, ctx: QueryCtx, first: u32, second: u32) -> Result<Resp, Self::Error>;
         #[sv::msg(sudo)]
         fn __x__y(&self, ctx: SudoCtx, first: u32, second: u32) -> Result<Response, Self::Error>;
+        #[sv::msg(sudo)]
+        fn get_v2_info(&self, ctx: SudoCtx, first: u32, second: u32) -> Result<Response, Self::Error>;
+        #[sv::msg(sudo)]
+        fn s3_key_7(&self, ctx: SudoCtx, first: u32, second: u32) -> Result<Response, Self::Error>;
     }
 }
 
@@ -150,12 +162,15 @@ pub mod ru1 {
 
     impl super::ri1::Shapes1 for Contract {
         type Error = StdError;
-        fn get_v2_info(&self, _ctx: ExecCtx, first: u32, second: u32) -> StdResult<Response> { Ok(Response::new()) }
-        fn s3_key_7(&self, _ctx: ExecCtx, first: u32, second: u32) -> StdResult<Response> { Ok(Response::new()) }
+        fn überweisen(&self, _ctx: ExecCtx, first: u32, second: u32) -> StdResult<Response> { Ok(Response::new()) }
+        fn konto_ändern(&self, _ctx: ExecCtx, first: u32, second: u32) -> StdResult<Response> { Ok(Response::new()) }
+        fn zurück_setzen(&self, _ctx: ExecCtx, first: u32, second: u32) -> StdResult<Response> { Ok(Response::new()) }
         fn _lead(&self, _ctx: QueryCtx, first: u32, second: u32) -> StdResult<Resp> { Ok(Resp {}) }
         fn trail_(&self, _ctx: QueryCtx, first: u32, second: u32) -> StdResult<Resp> { Ok(Resp {}) }
-        fn a__b(&self, _ctx: SudoCtx, first: u32, second: u32) -> StdResult<Response> { Ok(Response::new()) }
+        fn a__b(&self, _ctx: QueryCtx, first: u32, second: u32) -> StdResult<Resp> { Ok(Resp {}) }
         fn __x__y(&self, _ctx: SudoCtx, first: u32, second: u32) -> StdResult<Response> { Ok(Response::new()) }
+        fn get_v2_info(&self, _ctx: SudoCtx, first: u32, second: u32) -> StdResult<Response> { Ok(Response::new()) }
+        fn s3_key_7(&self, _ctx: SudoCtx, first: u32, second: u32) -> StdResult<Response> { Ok(Response::new()) }
     }
 
     #[entry_points]
